@@ -30,6 +30,12 @@ use crate::{
 mod gossip;
 mod live;
 mod state;
+#[cfg(feature = "verif-hooks")]
+#[allow(missing_docs)]
+pub mod verif_engine {
+    pub use super::live::{LiveActor, ToLiveActor};
+    pub use super::state::{NamespaceStates, VerifPeerSnapshot};
+}
 
 /// Capacity of the channel for the [`ToLiveActor`] messages.
 const ACTOR_CHANNEL_CAP: usize = 64;
